@@ -255,7 +255,7 @@ let xisa_main () =
       (SL.length cons - SL.length !inp.Isa.console) !minsp (out_str (SL.rev !out)) !mon)
 
 (* ---------------------------------------------------------------- xcg: the model of xcmp's expression code generator
-   stdin lines:  name=addr name=addr ... | <expression>      -> "LDAM 2; LDBC 3; ADD" or "none" (outside the fragment) *)
+   stdin lines:  size=<frame size> name=addr name=addr ... | <expression>      -> "LDAM 2; LDBC 3; ADD" or "none" (outside the fragment) *)
 let xcg_main () =
   try while true do
     let line = input_line stdin in
@@ -267,12 +267,14 @@ let xcg_main () =
                        (tokens (SS.sub line 0 i)) in
           let e = expr_of (parse_sx (SS.sub line (i + 1) (SS.length line - i - 1))) in
           let addr (x : String.string) = match SL.assoc_opt (ocaml_string x) amap with Some a -> Some (zi a) | None -> None in
-          (match XCodegenExpr.cg addr e XCodegenExpr.RA with
+          let size = match SL.assoc_opt "size" amap with Some n -> n | None -> 0 in
+          (match XCodegenExpr.cg addr (zi size) (zi 100000) e XCodegenExpr.RA (zi 0) with
            | None -> print_endline "none"
            | Some code ->
                print_endline (SS.concat "; " (SL.map (function
                  | XCodegenExpr.LDAC v -> P.sprintf "LDAC %d" (iz v) | XCodegenExpr.LDBC v -> P.sprintf "LDBC %d" (iz v)
                  | XCodegenExpr.LDAM a -> P.sprintf "LDAM %d" (iz a) | XCodegenExpr.LDBM a -> P.sprintf "LDBM %d" (iz a)
+                 | XCodegenExpr.STAI k -> P.sprintf "STAI %d" (iz k) | XCodegenExpr.LDBI k -> P.sprintf "LDBI %d" (iz k)
                  | XCodegenExpr.ADD -> "ADD" | XCodegenExpr.SUB -> "SUB") code)))
     end
   done with End_of_file -> ()
